@@ -96,6 +96,13 @@ fn noop_waker() -> std::task::Waker {
     unsafe { Waker::from_raw(RawWaker::new(std::ptr::null(), &VTABLE)) }
 }
 
+thread_local! {
+    /// runs once, after the first poll that returned Pending (or is left for the caller): the
+    /// caller's tracing context is torn down and a collector cycle runs while the future is
+    /// still alive
+    pub static MID_POLL: std::cell::RefCell<Option<Box<dyn FnOnce()>>> = const { std::cell::RefCell::new(None) };
+}
+
 /// drive a future to completion with a no-op waker, counting polls
 pub fn drive<F: Future>(fut: F, polls: &mut usize) -> F::Output {
     let mut fut = Box::pin(fut);
@@ -106,6 +113,9 @@ pub fn drive<F: Future>(fut: F, polls: &mut usize) -> F::Output {
         log(format!("poll#{}", *polls));
         if let Poll::Ready(v) = fut.as_mut().poll(&mut cx) {
             return v;
+        }
+        if let Some(f) = MID_POLL.with(|m| m.borrow_mut().take()) {
+            f();
         }
         assert!(*polls < 1000, "future never completes");
     }
